@@ -16,6 +16,8 @@ CLAIMED = {
          'Decides the typestate pairing of queue membership and m_expired on every path, that the sort key is never written while queued, upper_bound tie order, cancel/re-arm/destructor abort reachability and return values per path, and that fire() owns, clears and posts the handler. Firing instants are not decided.', '4/C03'),
  'C04': ('static: handler-value flow analysis (own/borrow/copy/dispatch), forward dataflow "slot known empty" with callee summaries on the CFG, call-graph reachability from initiating functions',
          'Decides that every completion handler is owned by a slot or by a closure consumed by post()/a timer, never invoked/dispatched inline on a path from an initiating call, never borrowed or copied, never overwritten or cleared while possibly set, that cancel/close/destructor leave every slot empty with operation_aborted bound, and that posted closures do not capture this. Exactly-once across arbitrary interleavings of several operations is not decided.', '4/C04'),
+ 'C05': ('static: field-coverage of close() by per-field reset dataflow, closed writer tables for payload and sequence counters, guard-dominance and definition-provenance rules on the receive path',
+         'Decides the reuse clause (close() resets every per-connection field on every path), that no hop writes payload bytes, that sequence counters have one source and every delivery is justified by a sequence test or a reorder lookup keyed by the expected number, that EOF is numbered and sequenced like data and surfaced only when no gathered byte is pending. The prefix property under arbitrary drops/read sizes is not decided.', '4/C05'),
 }
 
 NOT_YET = {}
